@@ -11,7 +11,8 @@ structure Cfg where
   `true` = as pinned; `false` = cutoff 0 means "nothing to prune". -/
   zeroCutoffRuns : Bool
   /-- the cutoff is recomputed from the configuration on a restart without resume state even when a
-  dead run already committed a higher one. `true` = as pinned; `false` = never below the pruned prefix. -/
+  dead run already committed a higher one (or the new configuration says "nothing to prune").
+  `true` = as pinned; `false` = never below the pruned prefix, a started prune is finished. -/
   cutoffBelowPruned : Bool
   deriving Repr, DecidableEq
 
@@ -32,10 +33,15 @@ def cutoff (cfg : Cfg) (i : In) : Option Nat :=
   | some c => some c
   | none =>
     let pivot := min i.l1 i.height
-    if pivot < i.retained then none else
-    let floor := pivot - i.retained
-    let floor := if !cfg.cutoffBelowPruned && i.pruned > floor then i.pruned else floor
-    if !cfg.zeroCutoffRuns && floor == 0 then none else some floor
+    if cfg.cutoffBelowPruned then
+      -- as pinned: the configuration alone decides
+      if pivot < i.retained then none else
+      let floor := pivot - i.retained
+      if !cfg.zeroCutoffRuns && floor == 0 then none else some floor
+    else
+      -- proposed patch: a prune that a dead run committed is finished, never below it
+      let floor := max (if pivot < i.retained then 0 else pivot - i.retained) i.pruned
+      if !cfg.zeroCutoffRuns && floor == 0 then none else some floor
 
 /-- `setupBeforeRestorer` reads the header of block `oldestBlockKept - uint64(1)`. -/
 def restorerSeed (c : Nat) : Nat := if c = 0 then 2 ^ 64 - 1 else c - 1
